@@ -214,6 +214,26 @@ def coords(i):
     return ((i * 1.3) % 7.0 + 0.37 * (i // 5), (i * 0.7) % 5.0 + i * 0.11, (i * 2.1) % 6.0 + 0.29 * (i // 7))
 
 
+def relayout(text, style):
+    """Legal layout variants of a MOL2 text: 'crlf', 'tabs' (fields separated by tabs), 'blank-atom' /
+    'blank-bond' (an empty line in the middle of the ATOM / BOND block), 'trailing' (trailing blanks)."""
+    lines = text.split("\n")
+    if style == "tabs":
+        lines = ["\t".join(ln.split()) if ln and not ln.startswith("@") and len(ln.split()) >= 4 else ln for ln in lines]
+    elif style in ("blank-atom", "blank-bond"):
+        tag = "@<TRIPOS>ATOM" if style == "blank-atom" else "@<TRIPOS>BOND"
+        start = lines.index(tag)
+        end = next(k for k in range(start + 1, len(lines)) if lines[k].startswith("@"))
+        if end - start > 2:
+            lines.insert(start + 1 + (end - start - 1) // 2, "")
+    elif style == "trailing":
+        lines = [ln + "   " if ln else ln for ln in lines]
+    out = "\n".join(lines)
+    if style == "crlf":
+        out = out.replace("\n", "\r\n")
+    return out
+
+
 def to_mol2(m, names, order=None, bond_order=None, flips=None, resname="LIG"):
     """names by original index; order = file order of atoms; flips = per-bond endpoint swap."""
     n = len(m.atoms)
